@@ -64,6 +64,7 @@ type c13Case struct {
 	Target    int          `json:"target_ctx,omitempty"` // auth: context addressed by the SNI
 	Late      []int        `json:"late_ready,omitempty"` // select: SDS slots whose secret arrives after the first handshake
 	Plain     bool         `json:"plaintext_client,omitempty"`
+	E2E       bool         `json:"through_running_mosn,omitempty"` // c13-e2e: the peer on the MOSN side is a listener / cluster of a running MOSN
 	Payload   string       `json:"payload,omitempty"`
 	// upstream family
 	UpServerName string  `json:"up_server_name,omitempty"`
@@ -100,6 +101,10 @@ type c13Env struct {
 	sds    types.SdsClient
 	tls13  bool
 	nameNo uint64
+	// sdsMu serialises listener construction and secret delivery: MOSN's secretManager.mutex and the SDS client's
+	// updatedLock are taken in opposite orders by AddOrUpdateProvider and SetSecret (an ABBA deadlock that is not
+	// this property's subject), so the harness never runs the two concurrently.
+	sdsMu sync.Mutex
 }
 
 func (e *c13Env) uniq(prefix string) string {
@@ -150,7 +155,9 @@ func (e *c13Env) buildListener(cs *c13Case) (*c13Listener, error) {
 		Inspector:    cs.Inspector,
 		FilterChains: []v2.FilterChain{{TLSContexts: tcs}},
 	}}
+	e.sdsMu.Lock()
 	mng, err := mtls.NewTLSServerContextManager(lc)
+	e.sdsMu.Unlock()
 	if err != nil {
 		return nil, err
 	}
@@ -164,6 +171,8 @@ func (e *c13Env) buildListener(cs *c13Case) (*c13Listener, error) {
 }
 
 func (e *c13Env) deliver(l *c13Listener, cs *c13Case, i int) {
+	e.sdsMu.Lock()
+	defer e.sdsMu.Unlock()
 	e.sds.SetSecret(l.sdsVal[i], &types.SdsSecret{Name: l.sdsVal[i], ValidationPEM: e.pki.CA[cs.Ctxs[i].CA].PEM})
 	e.sds.SetSecret(l.sdsCrt[i], &types.SdsSecret{Name: l.sdsCrt[i], CertificatePEM: l.leaves[i].CertPEM, PrivateKeyPEM: l.leaves[i].KeyPEM})
 }
@@ -348,13 +357,18 @@ func c13RefTLSClient(raw net.Conn, cs *c13Case, cert *gotls.Certificate, payload
 	_ = tc.Close()
 }
 
-func c13RefPlainClient(raw net.Conn, payload []byte, o *c13Obs) {
+func c13RefPlainClient(raw net.Conn, payload []byte, o *c13Obs, halfClose bool) {
 	defer raw.Close()
 	_ = raw.SetDeadline(time.Now().Add(c13Watchdog))
 	if _, err := raw.Write(payload); err != nil {
 		o.RefErr = "write: " + err.Error()
 		o.RefTimeout = c13IsTimeout(err)
 		return
+	}
+	// end of request: a listener side that waits for the rest of what it takes for a TLS record sees EOF instead of
+	// idling until the watchdog
+	if tc, ok := raw.(*net.TCPConn); ok && halfClose {
+		_ = tc.CloseWrite()
 	}
 	reply := make([]byte, len(payload)+4)
 	n, err := io.ReadFull(raw, reply)
@@ -533,7 +547,7 @@ func (e *c13Env) handshakeListener(conns *c13Conns, l *c13Listener, cs *c13Case,
 	done := make(chan struct{})
 	go c13MosnServe(l.mng, a, len(payload), o, done)
 	if cs.Plain {
-		c13RefPlainClient(d, payload, o)
+		c13RefPlainClient(d, payload, o, true)
 	} else {
 		c13RefTLSClient(d, cs, cert, payload, o)
 	}
@@ -561,6 +575,15 @@ func c13SeenCtx(l *c13Listener, leaf []byte) int {
 		}
 	}
 	return -1
+}
+
+func c13HasSDS(cs *c13Case) bool {
+	for _, s := range cs.Ctxs {
+		if s.SDS && s.Status {
+			return true
+		}
+	}
+	return false
 }
 
 func c13Provider(s c13CtxSpec) string {
@@ -608,6 +631,13 @@ func (e *c13Env) judgeSelect(cs *c13Case, l *c13Listener, o *c13Obs, phase strin
 		c.Count("tls1.3-handshakes", 1)
 	}
 	c.Count("select:handshakes", 1)
+	for _, s := range cs.Ctxs {
+		if !s.Status {
+			c.Count("select:disabled contexts seen by a handshake", 1)
+		} else if !s.Ready {
+			c.Count("select:not-ready sds contexts seen by a handshake", 1)
+		}
+	}
 	if seen < 0 {
 		// no certificate of this listener was presented at all
 		c.Violation("selection", "C13/selection/no-configured-certificate-presented",
@@ -663,8 +693,8 @@ func (e *c13Env) judgeSelect(cs *c13Case, l *c13Listener, o *c13Obs, phase strin
 			got = "first-ctx-listing-that-alpn-id"
 		}
 		sig := fmt.Sprintf("C13/selection/sni=%s/expected=%s-rule/got=%s", cls, rule, got)
-		if cs.Ctxs[seen].SDS || cs.Ctxs[idx].SDS {
-			sig += "/sds-involved"
+		if got == "other" && c13HasSDS(cs) {
+			sig = fmt.Sprintf("C13/selection/listener-with-sds-context/expected=%s-rule", rule)
 		}
 		c.Violation("selection", sig,
 			fmt.Sprintf("case %d (%s): SNI %q ALPN %v: the statement selects context #%d (%s rule) but the certificate of context #%d was presented", cs.Idx, phase, cs.SNI, cs.ALPN, idx, rule, seen),
@@ -722,6 +752,14 @@ func (e *c13Env) runAuth(conns *c13Conns, cs *c13Case) {
 	t := cs.Ctxs[cs.Target]
 	cert := e.peerCert(cs, t.CA)
 	o := e.handshakeListener(conns, l, cs, cert, []byte(fmt.Sprintf("auth-%d", cs.Idx)))
+	e.judgeAuth(cs, l, o, cert)
+}
+
+// judgeAuth: the trust matrix. In e2e cases the MOSN-side fields of o are filled from what the plaintext upstream behind
+// the listener received (MosnReadOK) - the connection state inside MOSN is not visible there.
+func (e *c13Env) judgeAuth(cs *c13Case, l *c13Listener, o *c13Obs, cert *gotls.Certificate) {
+	c := e.c
+	t := cs.Ctxs[cs.Target]
 	c.Eval(1)
 	if o.inconclusive() {
 		c.Inconclusive("auth: watchdog/pairing")
@@ -732,7 +770,11 @@ func (e *c13Env) runAuth(conns *c13Conns, cs *c13Case) {
 	}
 	seen := c13SeenCtx(l, o.RefLeaf)
 	if seen != cs.Target {
-		c.Violation("selection", "C13/selection/sni=hostname/expected=name-rule/got=other",
+		sig := "C13/selection/sni=hostname/expected=name-rule/got=other"
+		if c13HasSDS(cs) {
+			sig = "C13/selection/listener-with-sds-context/expected=name-rule"
+		}
+		c.Violation("selection", sig,
 			fmt.Sprintf("case %d: SNI %q names exactly context #%d, certificate of context #%d presented", cs.Idx, cs.SNI, cs.Target, seen),
 			c13Wit(cs, o, map[string]interface{}{"expected_ctx": cs.Target, "presented_ctx": seen}))
 		return
@@ -745,20 +787,20 @@ func (e *c13Env) runAuth(conns *c13Conns, cs *c13Case) {
 		outcome = "fail"
 	}
 	mode := fmt.Sprintf("verify=%v,require=%v", t.Verify, t.Require)
-	c.Distinct(fmt.Sprintf("auth|%s|skip=%v|insp=%v|%s|%s|%s|%s", mode, t.Skip, cs.Inspector, cs.PeerKind, c13VerName(o.RefVer), c13Provider(t), outcome))
+	c.Distinct(fmt.Sprintf("auth|e2e=%v|%s|skip=%v|insp=%v|%s|%s|%s|%s", cs.E2E, mode, t.Skip, cs.Inspector, cs.PeerKind, c13VerName(o.RefVer), c13Provider(t), outcome))
 	exp := c13ServerAuthExpect(t.Verify, t.Require, cs.PeerKind)
 	if exp == 0 {
 		c.Count(fmt.Sprintf("auth:observed (not judged) %s peer=%s -> %s", mode, cs.PeerKind, outcome), 1)
 		return
 	}
-	if outcome == "mixed" {
+	if outcome == "mixed" && !(exp < 0 && o.MosnReadOK) {
 		c.Inconclusive("auth: mixed outcome")
 		return
 	}
 	c.Count("auth:judged", 1)
 	c.Count("auth:judged peer="+cs.PeerKind, 1)
 	switch {
-	case exp < 0 && outcome == "ok":
+	case exp < 0 && o.MosnReadOK: // application data reached the application behind the listener
 		c.Violation("client-auth", fmt.Sprintf("C13/client-auth/accepted/peer=%s/provider=%s", cs.PeerKind, c13Provider(t)),
 			fmt.Sprintf("case %d: context #%d has verify_client and require_client_cert, peer certificate kind %q, TLS %s: the handshake succeeded and application data was served", cs.Idx, cs.Target, cs.PeerKind, c13VerName(o.RefVer)),
 			c13Wit(cs, o, nil))
@@ -768,8 +810,8 @@ func (e *c13Env) runAuth(conns *c13Conns, cs *c13Case) {
 			c13Wit(cs, o, nil))
 	case exp > 0:
 		// accepted: the server must have accepted exactly the certificate the peer proved
-		if !bytes.Equal(o.MosnPeerLeaf, cert.Certificate[0]) {
-			c.Violation("client-auth", "C13/client-auth/accepted-without-peer-certificate",
+		if !cs.E2E && !bytes.Equal(o.MosnPeerLeaf, cert.Certificate[0]) {
+			c.Violation("client-auth", "C13/client-auth/accepted-without-peer-certificate/provider="+c13Provider(t),
 				fmt.Sprintf("case %d: handshake succeeded under verify+require but the MOSN side records %d peer certificates / a different leaf", cs.Idx, o.MosnPeerN),
 				c13Wit(cs, o, nil))
 		}
@@ -785,16 +827,25 @@ func (e *c13Env) runPlain(conns *c13Conns, cs *c13Case) {
 	}
 	payload := []byte(cs.Payload)
 	o := e.handshakeListener(conns, l, cs, e.peerCert(cs, 0), payload)
+	e.judgePlain(cs, o)
+}
+
+func (e *c13Env) judgePlain(cs *c13Case, o *c13Obs) {
+	c := e.c
+	payload := []byte(cs.Payload)
+	if cs.E2E {
+		o.MosnIsTLS = !cs.Plain // not observable through a running MOSN: take what the client spoke
+	}
 	c.Eval(1)
 	if o.inconclusive() {
 		c.Inconclusive("plain: watchdog/pairing")
 		return
 	}
-	c.Distinct(fmt.Sprintf("plain|insp=%v|plain=%v|%v%v%v|%s|istls=%v|ok=%v", cs.Inspector, cs.Plain, cs.Ctxs[0].Verify, cs.Ctxs[0].Require, cs.Ctxs[0].Skip, c13VerName(o.RefVer), o.MosnIsTLS, o.success()))
+	c.Distinct(fmt.Sprintf("plain|e2e=%v|insp=%v|plain=%v|%v%v%v|%s|istls=%v|ok=%v", cs.E2E, cs.Inspector, cs.Plain, cs.Ctxs[0].Verify, cs.Ctxs[0].Require, cs.Ctxs[0].Skip, c13VerName(o.RefVer), o.MosnIsTLS, o.success()))
 	switch {
 	case cs.Plain && !cs.Inspector:
 		c.Count("plain:plaintext-client/inspector-off", 1)
-		if o.MosnRead > 0 || o.MosnReadOK || o.RefEcho || (!o.MosnIsTLS && o.MosnConnErr == "") {
+		if o.MosnRead > 0 || o.MosnReadOK || o.RefEcho || (!cs.E2E && !o.MosnIsTLS && o.MosnConnErr == "") {
 			c.Violation("plaintext", "C13/plaintext/served-without-inspector",
 				fmt.Sprintf("case %d: inspector off, plaintext client: the listener side delivered %d plaintext bytes to the application (tls=%v, echo=%v)", cs.Idx, o.MosnRead, o.MosnIsTLS, o.RefEcho),
 				c13Wit(cs, o, nil))
@@ -924,15 +975,21 @@ func (e *c13Env) runUpstream(conns *c13Conns, cs *c13Case) {
 		<-done
 		o.RefTimeout = true
 	}
+	accepted := o.MosnConnErr == "" && o.MosnIsTLS && o.MosnEcho && o.RefReadOK
+	rejected := o.MosnConnErr != "" && !o.RefReadOK
+	e.judgeUpstream(cs, o, accepted, rejected, upLeaf)
+}
+
+// judgeUpstream: MOSN as TLS client. accepted / rejected are decided by the caller from both ends of the connection.
+func (e *c13Env) judgeUpstream(cs *c13Case, o *c13Obs, accepted, rejected bool, upLeaf *c13Leaf) {
+	c := e.c
 	if o.MosnTimeout || o.RefTimeout {
 		c.Inconclusive("upstream: watchdog")
 		return
 	}
-	if o.MosnVer == gotls.VersionTLS13 {
+	if o.MosnVer == gotls.VersionTLS13 || o.RefVer == gotls.VersionTLS13 {
 		c.Count("tls1.3-handshakes", 1)
 	}
-	accepted := o.MosnConnErr == "" && o.MosnIsTLS && o.MosnEcho && o.RefReadOK
-	rejected := o.MosnConnErr != "" && !o.RefReadOK
 	outcome := "mixed"
 	if accepted {
 		outcome = "accepted"
@@ -940,7 +997,7 @@ func (e *c13Env) runUpstream(conns *c13Conns, cs *c13Case) {
 		outcome = "rejected"
 	}
 	skip := cs.UpFlags[2]
-	c.Distinct(fmt.Sprintf("up|skip=%v|v=%v|r=%v|cert=%v|sn=%v|%s|%s|%s", skip, cs.UpFlags[0], cs.UpFlags[1], cs.UpHasCert, cs.UpServerName != "", cs.PeerKind, c13VerName(o.MosnVer), outcome))
+	c.Distinct(fmt.Sprintf("up|e2e=%v|skip=%v|v=%v|r=%v|cert=%v|sn=%v|%s|%s|%s", cs.E2E, skip, cs.UpFlags[0], cs.UpFlags[1], cs.UpHasCert, cs.UpServerName != "", cs.PeerKind, c13VerName(o.MosnVer), outcome))
 	exp := c13UpstreamExpect(skip, cs.UpServerName != "", cs.PeerKind)
 	if exp == 0 {
 		c.Count(fmt.Sprintf("upstream:observed (not judged) skip=%v server_name_set=%v peer=%s -> %s", skip, cs.UpServerName != "", cs.PeerKind, outcome), 1)
@@ -964,7 +1021,7 @@ func (e *c13Env) runUpstream(conns *c13Conns, cs *c13Case) {
 		c.Violation("upstream-verify", fmt.Sprintf("C13/upstream/verifying-rejected/insecure_skip=%v", skip),
 			fmt.Sprintf("case %d: the upstream certificate chains to the configured CA and carries server_name %q, MOSN refused: %q", cs.Idx, cs.UpServerName, o.MosnConnErr),
 			c13Wit(cs, o, nil))
-	case exp > 0 && accepted && !bytes.Equal(o.MosnPeerLeaf, upLeaf.DER):
+	case exp > 0 && accepted && !cs.E2E && !bytes.Equal(o.MosnPeerLeaf, upLeaf.DER):
 		c.Violation("upstream-verify", "C13/upstream/peer-certificate-mismatch", fmt.Sprintf("case %d: MOSN records a different upstream leaf than the one served", cs.Idx), c13Wit(cs, o, nil))
 	}
 }
